@@ -134,13 +134,20 @@ def rational_quadratic_spline(
     input_heights = heights.gather(-1, bin_idx)[..., 0]
 
     if inverse:
-        a = (inputs - input_cumheights) * (
-            input_derivatives + input_derivatives_plus_one - 2 * input_delta
-        ) + input_heights * (input_delta - input_derivatives)
-        b = input_heights * input_derivatives - (inputs - input_cumheights) * (
-            input_derivatives + input_derivatives_plus_one - 2 * input_delta
+        # Coefficients of the quadratic in the bin-relative position.  The derivative at the left knot
+        # is grouped with the distance to the *upper* knot: summing it with the other slopes first
+        # cancels it again when the input is at (or near) the top of a bin, and with a steep left knot
+        # next to a flat right one that cancellation error exceeded the discriminant itself in float32.
+        offsets = inputs - input_cumheights
+        remaining = input_heights - offsets
+        other_slopes = input_derivatives_plus_one - 2 * input_delta
+        a = (
+            input_heights * input_delta
+            - input_derivatives * remaining
+            + offsets * other_slopes
         )
-        c = -input_delta * (inputs - input_cumheights)
+        b = input_derivatives * remaining - offsets * other_slopes
+        c = -input_delta * offsets
 
         discriminant = b.pow(2) - 4 * a * c
         # The discriminant is non-negative and the root lies in [0, 1] mathematically, but rounding
